@@ -523,6 +523,9 @@ fn main() {
         }
     }
 
+    // ---- C02 part (i): the single-endpoint rules
+    let singles = if ctx.prop == "C02" { vh::c02i::run(&ctx, &samples) } else { json!(null) };
+
     // ---- live slice: the same tables behind a real server, requests over TCP
     let live = if ctx.prop == "C01" || ctx.prop == "C04" {
         let alpha = triple_alphabet(16);
@@ -550,6 +553,7 @@ fn main() {
     let states = cn.sets.load(Ordering::Relaxed);
     let cov = json!({
         "live_slice": live,
+        "single_endpoint_rules": singles,
         "states": states,
         "transitions": cn.registers.load(Ordering::Relaxed),
         "traces_validated_against_impl": cn.histories.load(Ordering::Relaxed),
